@@ -228,3 +228,26 @@ func ReaderContent(rd index.IndexReader) (docs [][]any, count int, seq int, err 
 	}
 	return docs, int(n), seq, nil
 }
+
+// SearchVersion runs a term query for the version term of batch b and returns
+// the hits with the version their STORED field carries: [[id, ver]].
+func SearchVersion(idx bleve.Index, b int) ([][]any, error) {
+	q := bleve.NewTermQuery(fmt.Sprintf("v%d", b))
+	q.SetField("v")
+	req := bleve.NewSearchRequestOptions(q, 1000, 0, false)
+	req.Fields = []string{"v"}
+	res, err := idx.Search(req)
+	if err != nil {
+		return nil, err
+	}
+	out := [][]any{}
+	for _, h := range res.Hits {
+		ver := -1
+		if s, ok := h.Fields["v"].(string); ok {
+			ver, _ = strconv.Atoi(strings.TrimPrefix(s, "v"))
+		}
+		out = append(out, []any{h.ID, ver})
+	}
+	sort.Slice(out, func(i, j int) bool { return out[i][0].(string) < out[j][0].(string) })
+	return out, nil
+}
